@@ -94,10 +94,12 @@ def decide(rep, prog):
     # ---------------- observer (parseProbe)
     linked = dropped = notforus = 0
     for st, ret in res['topo.rest']:
-        ops = st.dom(OPC).values()
-        if not set(ops) <= {OP['probe'], OP['train']}:
+        opd = st.dom(OPC)
+        if not (opd.contains(OP['probe']) or opd.contains(OP['train'])):
+            continue          # (a path that has not looked at the opcode yet - an early drop in the dispatcher - concerns probes too)
+        so = st.objs.get('st')
+        if so is None:
             continue
-        so = st.objs['st']
         allocs = [e for e, _ in effects(st, 'malloc') if request_alloc(e[1])]
         failed = any(e[0] == 'malloc-failed' for e in st.trace)
         forus = all(own_mac_byte(st, ('in', 'frame', 18 + i), i) for i in range(6))
@@ -106,6 +108,12 @@ def decide(rep, prog):
         new_node = head[0] == 'ptr' and request_alloc(head[1])
         if not forus:
             notforus += 1
+            if st.tags.get('pred:U') is not False and not failed:
+                # neither recorded nor known to be for another station: the frame was dropped before / without the
+                # "addressed to us" test deciding it
+                new_node_ = head[0] == 'ptr' and request_alloc(head[1])
+                rep.check(new_node_, 'R07.a', 'observer|dropped-untested', 'a Probe/Train is dropped on a path that never established that its real destination differs '
+                          'from the own address: probes addressed to this station can be lost there', function='parseProbe', file=fnf)
             ok = not allocs and not new_node and st.same(cnt, SEEN_COUNT)
             rep.check(ok or failed, 'R07.a', 'observer|not-for-us', 'a Probe/Train whose real destination is not known to be the own address %s'
                       % ('is linked into the observation list' if new_node else 'allocates or changes the count'), function='parseProbe', file=fnf)
@@ -138,6 +146,13 @@ def decide(rep, prog):
                       function='parseProbe', file=fnf, sample={'count_range_on_link_path': repr(d)})
         else:
             dropped += 1
+            # a Probe/Train addressed to this station that is NOT recorded needs a reason the property allows: an allocation
+            # failed, an equal observation is already recorded, or the list is at its cap - not some other test on the frame
+            dup = any(weak_off(a) is not None or weak_off(b) is not None for a, b in st.eq.items())
+            capped = st.dom(SEEN_COUNT).lo >= 300
+            rep.check(failed or dup or capped, 'R07.a', 'observer|dropped', 'a Probe/Train whose real destination is the own address is dropped without being recorded, and not because '
+                      'of an allocation failure, an equal recorded observation or a full list (count %s): some other condition on the frame decides' % st.dom(SEEN_COUNT),
+                      function='parseProbe', file=fnf)
             live = [oid for oid, ob in st.objs.items() if request_alloc(oid) and ob.live]
             rep.check(not live or failed, 'R07.f', 'observer|drop-frees', 'a duplicate / rejected observation leaves its node allocated', function='parseProbe', file=fnf)
             rep.check(st.same(cnt, SEEN_COUNT) or failed, 'R07.g', 'observer|drop-count', 'count changes although no node was linked', function='parseProbe', file=fnf)
